@@ -325,4 +325,404 @@ theorem search_poolPar {T : Tree} (hint : List Nat) {s : State} (hs : Safe T s) 
   have := le_poolBound s.pool 0 c (hsub c (r2 c hc))
   unfold poolBound; omega
 
+
+/-! ## deliver -/
+
+theorem safe_route {T : Tree} {s : State} (h : Safe T s) {b : Nat} (hb : b ≠ 0) (hnc : T.nc b = true) :
+    Safe T (route T { s with seen := upd s.seen b true, stored := upd s.stored b true, commits := s.commits + 1 } b).1 := by
+  have hact := route_act T { s with seen := upd s.seen b true, stored := upd s.stored b true, commits := s.commits + 1 } b
+  generalize route T { s with seen := upd s.seen b true, stored := upd s.stored b true, commits := s.commits + 1 } b = r at hact ⊢
+  cases hact with
+  | accept _ =>
+    refine h.of_sameChain ⟨rfl, rfl, rfl, rfl⟩ ?_ h.poolNc
+    intro x hx
+    simp [enqueue] at hx
+    rcases hx with hx | hx
+    · exact h.queueNc x hx
+    · subst hx; exact ⟨hb, hnc⟩
+  | reject _ _ => exact h.of_sameChain ⟨rfl, rfl, rfl, rfl⟩ h.queueNc h.poolNc
+  | dup _ _ _ => exact h.of_sameChain ⟨rfl, rfl, rfl, rfl⟩ h.queueNc h.poolNc
+  | hold _ _ _ =>
+    refine h.of_sameChain ⟨rfl, rfl, rfl, rfl⟩ h.queueNc ?_
+    intro x hx
+    simp at hx
+    rcases hx with hx | hx
+    · subst hx; exact ⟨hb, hnc⟩
+    · exact h.poolNc x hx
+
+theorem upd_true_cases {f : Nat → Bool} {b x : Nat} (h : upd f b true x = true) : f x = true ∨ x = b := by
+  by_cases hx : x = b
+  · exact Or.inr hx
+  · rw [upd_other _ _ hx] at h; exact Or.inl h
+
+theorem live_route {T : Tree} {s : State} (hs : Safe T s) (hl : LiveCore T s) {b : Nat} (hb : b ≠ 0) :
+    LiveCore T (route T { s with seen := upd s.seen b true, stored := upd s.stored b true, commits := s.commits + 1 } b).1 := by
+  have hact := route_act T { s with seen := upd s.seen b true, stored := upd s.stored b true, commits := s.commits + 1 } b
+  generalize route T { s with seen := upd s.seen b true, stored := upd s.stored b true, commits := s.commits + 1 } b = r at hact ⊢
+  cases hact with
+  | accept ha =>
+    exact live_accept hl (c := b) ha rfl rfl rfl rfl (fun x hx => upd_true_cases hx) (fun x hx _ => hx)
+  | reject _ hi =>
+    exact live_reject hs hl hb hi rfl rfl rfl rfl (fun x hx => upd_true_cases hx) (fun x hx _ => hx)
+  | dup _ _ hm =>
+    exact live_pooled hl (c := b) rfl rfl rfl rfl (fun x hx => upd_true_cases hx) hm (fun x hx => hx)
+  | hold _ _ _ =>
+    exact live_pooled hl (c := b) rfl rfl rfl rfl (fun x hx => upd_true_cases hx)
+      (List.mem_cons_self) (fun x hx => List.mem_cons_of_mem _ hx)
+
+theorem live_deliver {T : Tree} {s : State} (hs : Safe T s) (hl : Live T s) (hint : List Nat) (b : Nat) :
+    Live T (deliver T hint s b).1 := by
+  unfold deliver
+  by_cases hb : b = 0
+  · simp [hb]; exact hl
+  · simp only [hb, if_false]
+    by_cases hnc : T.nc b = true
+    · simp only [hnc, Bool.not_true, Bool.false_eq_true, if_false]
+      have s1 := safe_route hs hb hnc
+      have l1 := live_route hs hl.core hb
+      exact ⟨(search_core hint s1 l1).2, search_poolPar hint s1⟩
+    · have hnc' : T.nc b = false := by simpa using hnc
+      simp only [hnc', Bool.not_false, if_true]
+      have hnfv : ¬ FullyValid T b := fun hfv => by
+        have := (hfv.flags hb).1; rw [hnc'] at this; exact absurd this (by simp)
+      refine ⟨⟨?_, ?_, hl.core.qg, hl.core.pendQ, ?_, ?_⟩, ?_⟩
+      · intro x hx
+        show upd s.invalid b true x = false
+        by_cases hxb : x = b
+        · subst hxb
+          have := (hs.extPar x hx hb).2; rw [hnc'] at this; exact absurd this (by simp)
+        · rw [upd_other _ _ hxb]; exact hl.core.extValid x hx
+      · intro x hx
+        change upd s.invalid b true x = true at hx
+        by_cases hxb : x = b
+        · subst hxb; exact hnfv
+        · rw [upd_other _ _ hxb] at hx; exact hl.core.invNotFV x hx
+      · intro x hx
+        show _ ∨ _ ∨ upd s.invalid b true x = true
+        rcases hl.core.queueSt x hx with h | h | h
+        · exact Or.inl h
+        · exact Or.inr (Or.inl h)
+        · right; right
+          by_cases hxb : x = b
+          · subst hxb; simp
+          · rw [upd_other _ _ hxb]; exact h
+      · intro x hx0 hsn hfv
+        change upd s.seen b true x = true at hsn
+        rcases upd_true_cases hsn with h | h
+        · exact hl.core.kept x hx0 h hfv
+        · subst h; exact absurd hfv hnfv
+      · intro c hc
+        obtain ⟨p1, p2, p3⟩ := hl.poolPar c hc
+        refine ⟨p1, p2, ?_⟩
+        intro hi
+        change upd s.invalid b true (T.par c) = true at hi
+        by_cases hpb : T.par c = b
+        · rw [hpb]; exact hnc'
+        · rw [upd_other _ _ hpb] at hi; exact p3 hi
+
+/-! ## verify -/
+
+theorem head_not_pool_parent {T : Tree} {s : State} (hs : Safe T s) (hl : Live T s) {b : Nat} {q : List Nat}
+    (hq : s.queue = b :: q) : ∀ c ∈ s.pool, T.par c ≠ b := by
+  intro c hc hpb
+  have hbq : b ∈ s.queue := by rw [hq]; exact List.mem_cons_self
+  obtain ⟨p1, p2, p3⟩ := hl.poolPar c hc
+  rw [hpb] at p1 p2 p3
+  rcases hl.core.queueSt b hbq with h | h | h
+  · rw [p1] at h; exact absurd h (by simp)
+  · rw [p2] at h; simp at h
+  · have := (hs.queueNc b hbq).2; rw [p3 h] at this; exact absurd this (by simp)
+
+theorem fail_facts {T : Tree} {s : State} (hs : Safe T s) (hl : Live T s) {b : Nat} {q : List Nat}
+    (hq : s.queue = b :: q)
+    (hf : s.invalid (T.par b) = true ∨ s.td (T.par b) = none ∨
+        (∃ ptd, s.td (T.par b) = some ptd ∧ s.invalid (T.par b) = false ∧ s.tipTd < ptd + T.work b ∧
+          (dirtyRun T s (T.par b) ++ [b]).all T.ok = false)) :
+    ¬ FullyValid T b ∧ s.td b = none := by
+  have hbq : b ∈ s.queue := by rw [hq]; exact List.mem_cons_self
+  have hb0 := (hs.queueNc b hbq).1
+  have hqg := hl.core.qg
+  rw [hq] at hqg
+  constructor
+  · intro hfv
+    rcases hf with h | h | ⟨ptd, hp, _, _, hall⟩
+    · exact hl.core.invNotFV _ h (hfv.parent hb0)
+    · rcases hqg.1 hfv hb0 with h1 | h1
+      · rw [h] at h1; simp at h1
+      · simp at h1
+    · have : (dirtyRun T s (T.par b) ++ [b]).all T.ok = true := by
+        apply List.all_eq_true.mpr
+        intro x hx
+        rcases List.mem_append.mp hx with h | h
+        · exact dirtyRun_ok T s _ (hfv.parent hb0) x h
+        · have : x = b := by simpa using h
+          subst this; exact (hfv.flags hb0).2
+      rw [this] at hall; exact absurd hall (by simp)
+  · cases htd : s.td b with
+    | none => rfl
+    | some n =>
+      exfalso
+      have hext : (s.td b).isSome = true := by simp [htd]
+      have hpe := (hs.extPar b hext hb0).1
+      rcases hf with h | h | ⟨ptd, hp, _, hlt, _⟩
+      · have := hl.core.extValid _ hpe; rw [h] at this; exact absurd this (by simp)
+      · rw [h] at hpe; simp at hpe
+      · have h1 := hs.tdTrue _ _ htd
+        have h2 : TD T b (ptd + T.work b) := .step hb0 (hs.tdTrue _ _ hp)
+        have := TD.functional h1 h2
+        have := hs.tdLe _ _ htd
+        omega
+
+theorem live_fail {T : Tree} {s : State} (hs : Safe T s) (hl : Live T s) {b : Nat} {q : List Nat}
+    (hq : s.queue = b :: q) (hnfv : ¬ FullyValid T b) (hnone : s.td b = none) :
+    Live T (verifyFail { s with queue := q } b).1 := by
+  have hnp := head_not_pool_parent hs hl hq
+  refine ⟨⟨?_, ?_, ?_, ?_, ?_, ?_⟩, ?_⟩
+  · intro x hx
+    show upd s.invalid b true x = false
+    by_cases hxb : x = b
+    · subst hxb; change (s.td x).isSome = true at hx; rw [hnone] at hx; simp at hx
+    · rw [upd_other _ _ hxb]; exact hl.core.extValid x hx
+  · intro x hx
+    change upd s.invalid b true x = true at hx
+    by_cases hxb : x = b
+    · subst hxb; exact hnfv
+    · rw [upd_other _ _ hxb] at hx; exact hl.core.invNotFV x hx
+  · have hqg := hl.core.qg
+    rw [hq] at hqg
+    show QG T s.td [] q
+    refine QG_mono (fun _ h => h) q [b] [] hqg.2 ?_
+    intro x hx
+    have : x = b := by simpa using hx
+    subst this; exact Or.inr (Or.inr hnfv)
+  · intro x hx
+    change upd s.pending b false x = true at hx
+    show x ∈ q
+    by_cases hxb : x = b
+    · subst hxb; simp at hx
+    · rw [upd_other _ _ hxb] at hx
+      have := hl.core.pendQ x hx
+      rw [hq] at this
+      rcases List.mem_cons.mp this with h | h
+      · exact absurd h hxb
+      · exact h
+  · intro x hx
+    change x ∈ q at hx
+    show upd s.pending b false x = true ∨ _ ∨ upd s.invalid b true x = true
+    by_cases hxb : x = b
+    · subst hxb; right; right; simp
+    · rw [upd_other _ _ hxb, upd_other _ _ hxb]
+      exact hl.core.queueSt x (by rw [hq]; exact List.mem_cons_of_mem _ hx)
+  · intro x hx0 hsn hfv
+    show _ ∨ x ∈ q ∨ _
+    rcases hl.core.kept x hx0 hsn hfv with h | h | h
+    · exact Or.inl h
+    · rw [hq] at h
+      rcases List.mem_cons.mp h with h1 | h1
+      · subst h1; exact absurd hfv hnfv
+      · exact Or.inr (Or.inl h1)
+    · exact Or.inr (Or.inr h)
+  · intro c hc
+    have hne := hnp c hc
+    obtain ⟨p1, p2, p3⟩ := hl.poolPar c hc
+    refine ⟨?_, p2, ?_⟩
+    · show upd s.pending b false (T.par c) = false
+      rw [upd_other _ _ hne]; exact p1
+    · intro hi
+      change upd s.invalid b true (T.par c) = true at hi
+      rw [upd_other _ _ hne] at hi; exact p3 hi
+
+/-- a successful verification of the head `b`: `b` has an ext afterwards, other exts are unchanged -/
+theorem live_done {T : Tree} {s s' : State} (hs : Safe T s) (hl : Live T s) {b : Nat} {q : List Nat}
+    (hq : s.queue = b :: q) (hb : (s'.td b).isSome = true) (ho : ∀ x, x ≠ b → s'.td x = s.td x)
+    (hinv : s'.invalid = upd s.invalid b false) (hpend : s'.pending = upd s.pending b false)
+    (hq' : s'.queue = q) (hpool : s'.pool = s.pool) (hseen : s'.seen = s.seen) : Live T s' := by
+  have hnp := head_not_pool_parent hs hl hq
+  have hext : ∀ x, (s.td x).isSome = true → (s'.td x).isSome = true := by
+    intro x hx
+    by_cases hxb : x = b
+    · subst hxb; exact hb
+    · rw [ho x hxb]; exact hx
+  refine ⟨⟨?_, ?_, ?_, ?_, ?_, ?_⟩, ?_⟩
+  · intro x hx
+    rw [hinv]
+    by_cases hxb : x = b
+    · subst hxb; simp
+    · rw [upd_other _ _ hxb]; rw [ho x hxb] at hx; exact hl.core.extValid x hx
+  · intro x hx
+    rw [hinv] at hx
+    by_cases hxb : x = b
+    · subst hxb; simp at hx
+    · rw [upd_other _ _ hxb] at hx; exact hl.core.invNotFV x hx
+  · have hqg := hl.core.qg
+    rw [hq] at hqg
+    rw [hq']
+    refine QG_mono hext q [b] [] hqg.2 ?_
+    intro x hx
+    have : x = b := by simpa using hx
+    subst this; exact Or.inr (Or.inl hb)
+  · intro x hx
+    rw [hpend] at hx; rw [hq']
+    by_cases hxb : x = b
+    · subst hxb; simp at hx
+    · rw [upd_other _ _ hxb] at hx
+      have := hl.core.pendQ x hx
+      rw [hq] at this
+      rcases List.mem_cons.mp this with h | h
+      · exact absurd h hxb
+      · exact h
+  · intro x hx
+    rw [hq'] at hx; rw [hpend, hinv]
+    by_cases hxb : x = b
+    · subst hxb; exact Or.inr (Or.inl hb)
+    · rw [upd_other _ _ hxb, upd_other _ _ hxb, ho x hxb]
+      exact hl.core.queueSt x (by rw [hq]; exact List.mem_cons_of_mem _ hx)
+  · intro x hx0 hsn hfv
+    rw [hseen] at hsn; rw [hq', hpool]
+    rcases hl.core.kept x hx0 hsn hfv with h | h | h
+    · exact Or.inl (hext x h)
+    · rw [hq] at h
+      rcases List.mem_cons.mp h with h1 | h1
+      · subst h1; exact Or.inl hb
+      · exact Or.inr (Or.inl h1)
+    · exact Or.inr (Or.inr h)
+  · intro c hc
+    rw [hpool] at hc
+    have hne := hnp c hc
+    obtain ⟨p1, p2, p3⟩ := hl.poolPar c hc
+    rw [hpend, hinv, ho _ hne, upd_other _ _ hne, upd_other _ _ hne]
+    exact ⟨p1, p2, p3⟩
+
+theorem live_verify {T : Tree} {s : State} (hs : Safe T s) (hl : Live T s) : Live T (verifyHead T s).1 := by
+  have hact := verifyHead_act T s
+  generalize verifyHead T s = r at hact ⊢
+  cases hact with
+  | empty _ => exact hl
+  | fail b q hq hf =>
+    obtain ⟨h1, h2⟩ := fail_facts hs hl hq hf
+    exact live_fail hs hl hq h1 h2
+  | known b q ptd hq _ _ _ hext =>
+    exact live_done hs hl hq hext (fun _ _ => rfl) rfl rfl rfl rfl rfl
+  | side b q ptd hq _ _ _ =>
+    refine live_done hs hl hq ?_ (fun x hx => ?_) rfl rfl rfl rfl rfl
+    · show (upd s.td b _ b).isSome = true
+      simp
+    · show upd s.td b _ x = _
+      rw [upd_other _ _ hx]
+  | best b q ptd hq _ _ _ _ =>
+    refine live_done hs hl hq ?_ (fun x hx => ?_) rfl rfl rfl rfl rfl
+    · show (upd s.td b _ b).isSome = true
+      simp
+    · show upd s.td b _ x = _
+      rw [upd_other _ _ hx]
+
+/-! ## expire, crash -/
+
+theorem expire_noop (T : Tree) (s : State) (h : (expire T s).expiryFired = false) : expire T s = s := by
+  unfold expire at h ⊢
+  have key : ∀ (l : List Nat) (acc : State × List Nat),
+      (l.foldl (stepExpire T s.pool (T.epoch s.tip)) acc).1.expiryFired = false →
+      l.foldl (stepExpire T s.pool (T.epoch s.tip)) acc = acc := by
+    intro l
+    induction l with
+    | nil => intro acc _; rfl
+    | cons c r ih =>
+      intro acc hf
+      simp only [List.foldl_cons] at hf ⊢
+      have h1 := ih _ hf
+      rw [h1] at hf ⊢
+      unfold stepExpire at hf ⊢
+      by_cases hc : c ∈ acc.1.pool
+      · simp only [hc, if_true] at hf ⊢
+        by_cases hg : expGone T s.pool (T.epoch s.tip) acc.2 c = true
+        · simp only [hg, if_true] at hf; simp at hf
+        · simp only [hg]; rfl
+      · simp only [hc, if_false]
+  rw [key _ _ h]
+
+theorem live_crash {T : Tree} {s : State} (hs : Safe T s) : Live T (crash s) := by
+  refine ⟨⟨by simp [crash], by simp [crash], trivial, by simp [crash], by simp [crash], ?_⟩, ?_⟩
+  · intro b _ hsn _
+    left; exact hsn
+  · intro c hc; simp [crash] at hc
+
+theorem live_init (T : Tree) : Live T (init T) := by
+  refine ⟨⟨by simp [init], by simp [init], trivial, by simp [init], by simp [init], ?_⟩, ?_⟩
+  · intro b _ hsn; simp [init] at hsn
+  · intro c hc; simp [init] at hc
+
+/-! ## the full invariant -/
+
+theorem inv_init' (T : Tree) : Inv T (init T) := ⟨safe_init T, fun _ => live_init T⟩
+
+theorem inv_step' {T : Tree} {s : State} (h : Inv T s) (op : Op) : Inv T (step T s op).1 := by
+  refine ⟨safe_step h.safe op, ?_⟩
+  cases op with
+  | deliver b hint =>
+    intro hf
+    have hf0 : s.expiryFired = false := by
+      have : (deliver T hint s b).1.expiryFired = s.expiryFired := by
+        unfold deliver
+        by_cases hb : b = 0
+        · simp [hb]
+        · simp only [hb, if_false]
+          by_cases hnc : T.nc b = true
+          · simp only [hnc, Bool.not_true, Bool.false_eq_true, if_false]
+            have e1 : ∀ (s0 : State) (x : Nat), (route T s0 x).1.expiryFired = s0.expiryFired := by
+              intro s0 x
+              have hact := route_act T s0 x
+              generalize route T s0 x = r at hact ⊢
+              cases hact <;> rfl
+            have e2 : ∀ (s0 : State), (search T hint s0).1.expiryFired = s0.expiryFired := by
+              intro s0
+              unfold search
+              refine foldl_preserves (stepPool T s0.pool) (fun acc => acc.1.expiryFired = s0.expiryFired) ?_ _ _ rfl
+              intro acc c hacc
+              have hact := stepPool_act T s0.pool acc c
+              generalize stepPool T s0.pool acc c = r at hact ⊢
+              cases hact <;> exact hacc
+            rw [e2, e1]
+          · have : T.nc b = false := by simpa using hnc
+            simp only [this, Bool.not_false, if_true]
+      exact this ▸ hf
+    exact live_deliver h.safe (h.live hf0) hint b
+  | verify =>
+    intro hf
+    have hf0 : s.expiryFired = false := by
+      have : (verifyHead T s).1.expiryFired = s.expiryFired := by
+        have hact := verifyHead_act T s
+        generalize verifyHead T s = r at hact ⊢
+        cases hact <;> rfl
+      exact this ▸ hf
+    exact live_verify h.safe (h.live hf0)
+  | expire =>
+    intro hf
+    change (expire T s).expiryFired = false at hf
+    show Live T (expire T s)
+    have he := expire_noop T s hf
+    rw [he] at hf ⊢
+    exact h.live hf
+  | crash => intro _; exact live_crash h.safe
+
+theorem inv_run' {T : Tree} : ∀ (ops : List Op) (s : State), Inv T s → Inv T (run T s ops) := by
+  intro ops
+  induction ops with
+  | nil => intro s h; exact h
+  | cons op ops ih => intro s h; exact ih _ (inv_step' h op)
+
+/-- at quiescence every chain formable from the delivered blocks has an ext -/
+theorem chain_has_ext {T : Tree} {s : State} (hs : Safe T s) (hl : Live T s) (hq : s.queue = []) :
+    ∀ b, ChainIn T (fun x => s.seen x = true) b → (s.td b).isSome = true := by
+  intro b hc
+  induction hc with
+  | genesis => rw [hs.gen.2]; rfl
+  | step hb hd h1 h2 hp ih =>
+    rename_i b
+    have hfv : FullyValid T b := .step hb h1 h2 hp.fullyValid
+    rcases hl.core.kept b hb hd hfv with h | h | h
+    · exact h
+    · rw [hq] at h; simp at h
+    · have := (hl.poolPar b h).2.1
+      rw [this] at ih; simp at ih
+
 end CkbVerif.Chain
